@@ -2977,6 +2977,10 @@ func fileFromReadSeeker(name string, reader io.ReadSeeker) *File {
 		Writer: func(writer io.Writer) (int64, error) {
 			readBytes, err := io.Copy(writer, reader)
 			if err != nil {
+				// A copy that failed half way leaves the reader somewhere inside the content. Go
+				// back to the start position as well, otherwise the next write would succeed with
+				// only the remainder of the content
+				_, _ = reader.Seek(start, io.SeekStart)
 				return readBytes, err
 			}
 			_, err = reader.Seek(start, io.SeekStart)
